@@ -78,6 +78,7 @@ class World:
             os.environ[k] = v
         # process-wide library state
         # (a new world is a new process: the module-level jar is a new object, whatever attributes it has grown)
+        seams.restore_state()
         ws._handshake.CookieJar = type(ws._handshake.CookieJar)()
         ws.setReconnect(0)
         ws.setdefaulttimeout(self.default_timeout)
